@@ -118,7 +118,7 @@ func runC18(c *Ctx) {
 	// ---- R12 one key function for the score/blacklist maps (writers and readers must agree)
 	{
 		n := 0
-		for _, fn := range p.OwnFuncs {
+		for _, fn := range p.Subjects() {
 			if !strings.HasPrefix(FuncKey(fn), "pkg/p2p.(*connectionGater).") || len(fn.Blocks) == 0 {
 				continue
 			}
@@ -136,7 +136,7 @@ func runC18(c *Ctx) {
 				}
 				c.Require("C18.R12 one-key-function", FuncKey(fn)+": "+what+" "+mt.Sym, p.InstrPos(in), "score and blacklist maps are keyed by net.IP.String() everywhere (a reader keyed differently from the writer never finds the ban)", ok, "key: "+kt.String())
 			}
-			for _, b := range fn.Blocks {
+			for _, b := range blocksDeep(fn) {
 				for _, in := range b.Instrs {
 					switch x := in.(type) {
 					case *ssa.Lookup:
@@ -163,7 +163,7 @@ func runC18(c *Ctx) {
 		// accumulation: a store to peerInfo.score of  old.score + p2
 		okAcc := false
 		var newScore ssa.Value
-		for _, b := range addPen.Blocks {
+		for _, b := range blocksDeep(addPen) {
 			for _, in := range b.Instrs {
 				if st, ok := in.(*ssa.Store); ok {
 					if fa, ok := st.Addr.(*ssa.FieldAddr); ok {
@@ -199,7 +199,7 @@ func runC18(c *Ctx) {
 			}
 			c.Require("C18.R9 ban-threshold", FuncKey(addPen)+": expiry set", p.InstrPos(site), "a ban expiry (now + expiration) is stored exactly under newScore >= MaxPenaltyScore", future && banEdge, fmt.Sprintf("future=%v banEdge=%v value=%s", future, banEdge, val))
 		}
-		for _, b := range addPen.Blocks {
+		for _, b := range blocksDeep(addPen) {
 			for _, in := range b.Instrs {
 				switch x := in.(type) {
 				case *ssa.Store:
@@ -249,7 +249,7 @@ func runC18(c *Ctx) {
 		} else {
 			sf := factsOf(sweep)
 			n := 0
-			for _, call := range AllCalls(sweep) {
+			for _, call := range AllCallsDeep(sweep) {
 				if CalleeName(call.Common()) != "builtin:delete" || !strings.Contains(T(call.Common().Args[0]).String(), "peerScore") {
 					continue
 				}
@@ -384,7 +384,7 @@ func runC18(c *Ctx) {
 		}
 		// no unconditional penalties anywhere in pkg/p2p, consensus sync, txpool
 		n := 0
-		for _, fn := range p.OwnFuncs {
+		for _, fn := range p.Subjects() {
 			if !IsProd(fn) || len(fn.Blocks) == 0 {
 				continue
 			}
